@@ -20,7 +20,7 @@ Dims == <<"create", "a1", "a2", "fields", "calls", "scope", "deco", "getter">>
 DimVals(d) ==
   CASE d = "create" -> <<"ctor", "ctorlocal", "ctorE", "ctorV", "valGlobal", "valNewPtr", "valNewVal", "typeVal", "typePtr", "todo">>
     [] d = "a1"     -> <<"none", "int", "uint64", "float", "bool", "null", "str", "svc", "tagged", "value", "self",
-                         "pInt", "pStr", "pMulti", "pct", "fn", "fail", "pNull", "svcNS", "str7", "strtrue", "strnull", "valueDeref", "floatInt">>
+                         "pInt", "pStr", "pMulti", "pct", "fn", "fail", "pNull", "svcNS", "str7", "strtrue", "strnull", "valueDeref", "floatInt", "failMulti", "todoMulti">>
     [] d = "a2"     -> <<"none", "int", "str", "svc", "tagged", "pInt", "pMulti", "self", "svcNS", "str7", "bool", "strtrue", "null">>
     [] d = "fields" -> <<"none", "F1lit", "F1F2", "f3", "F2svcNS">>
     [] d = "calls"  -> <<"none", "set", "with", "setwith", "withset", "setE", "long", "setfail">>
@@ -39,6 +39,9 @@ ArgOf(x) ==
     [] x = "pMulti" -> <<APat(<<CText(" a"), CRef("p1"), CPct, CRef("p3"), CText("z ")>>)>>
     [] x = "pct" -> <<APat(<<CPct>>)>> [] x = "fn" -> <<APat(<<CFn("fn", "\"a\", 5")>>)>>
     [] x = "fail" -> <<AStr("fail")>>
+    \* a chunk in the middle of a pattern that cannot be evaluated: the construction fails, nothing is built from the text before it
+    [] x = "failMulti" -> <<APat(<<CText("x-"), CRef("p1"), CFn("fnE", "\"fail\""), CText("-y")>>)>>
+    [] x = "todoMulti" -> <<APat(<<CText("t_"), CFn("todo", ""), CRef("p2")>>)>>
     [] OTHER -> <<>>
 
 IsValRecv(c) == c \in {"ctorV", "valNewVal", "typeVal"}
